@@ -242,16 +242,18 @@ Theorem C08b_static_off_is_resolver2 : forall ac pc indexed defs ps b, wf2 false
   assembleS2 ac pc false indexed defs ps b = assemble2 indexed defs ps b.
 Proof. exact assembleS2_off. Qed.
 
-(* the switch theorem, PARTIAL.  Full statement: for every budget b, the two settings give the identical answer, or the
-   one-pass situation (b = 1: the unoptimised run fails; b >= 2: the same result in exactly two passes), or b >= 2 and
-   neither run succeeds.  Proved: all of it except that in the last alternative the UNoptimised run fails too. *)
-Theorem C08b_static_switch_partial : forall indexed defs ps, wf2 true defs ps -> forall b,
+(* the switch theorem (same form as C08_static_switch): for every budget b, the two settings give the identical answer
+   (result, pass count, error or panic), or the one-pass situation (b = 1: the unoptimised run fails and an optimised success
+   reports 1 pass; b >= 2: the same result, 1 pass with and exactly 2 passes without the optimisation), or b >= 2 and
+   neither run succeeds. *)
+Theorem C08b_static_switch : forall indexed defs ps, wf2 true defs ps -> forall b,
   assembleS2 true true true indexed defs ps b = assemble2 indexed defs ps b \/
   (b = 1%nat /\ assemble2 indexed defs ps b = Overlap.Err /\ forall r, assembleS2 true true true indexed defs ps b = Overlap.Ok r -> r_iters r = 1%nat) \/
   ((2 <= b)%nat /\ exists r, assembleS2 true true true indexed defs ps b = Overlap.Ok r /\ r_iters r = 1%nat /\
                              assemble2 indexed defs ps b = Overlap.Ok (set_iters r 2)) \/
-  ((2 <= b)%nat /\ forall r, assembleS2 true true true indexed defs ps b <> Overlap.Ok r).
-Proof. exact switch2_partial. Qed.
+  ((2 <= b)%nat /\ (forall r, assembleS2 true true true indexed defs ps b <> Overlap.Ok r) /\
+                   (forall r, assemble2 indexed defs ps b <> Overlap.Ok r)).
+Proof. exact switch2_cases. Qed.
 
 Theorem C08b_static_switch_same_result : forall indexed defs ps, wf2 true defs ps -> forall b r r',
   assembleS2 true true true indexed defs ps b = Overlap.Ok r -> assemble2 indexed defs ps b = Overlap.Ok r' ->
@@ -262,6 +264,17 @@ Theorem C08b_static_switch_fwd : forall indexed defs ps, wf2 true defs ps -> for
   assembleS2 true true true indexed defs ps b = Overlap.Ok r ->
   exists n', assemble2 indexed defs ps b = Overlap.Ok (set_iters r n') /\ counts_ok (r_iters r) n'.
 Proof. exact switch2_fwd. Qed.
+
+(* every success without the optimisation is a success with it (same bits, symbols, banks, spans), at every budget *)
+Theorem C08b_static_switch_bwd : forall indexed defs ps, wf2 true defs ps -> forall b r',
+  assemble2 indexed defs ps b = Overlap.Ok r' ->
+  exists r, assembleS2 true true true indexed defs ps b = Overlap.Ok r /\ set_iters r 0 = set_iters r' 0 /\ counts_ok (r_iters r) (r_iters r').
+Proof. exact switch2_bwd. Qed.
+
+(* from budget 2 on the two settings accept the same programs *)
+Theorem C08b_static_switch_success : forall indexed defs ps, wf2 true defs ps -> forall b, (2 <= b)%nat ->
+  ((exists r, assembleS2 true true true indexed defs ps b = Overlap.Ok r) <-> (exists r', assemble2 indexed defs ps b = Overlap.Ok r')).
+Proof. exact switch2_success. Qed.
 
 Example C08b_nonvacuous :
   exists r, assembleS2 true true true true ex2_defs ex2_ps 3 = Overlap.Ok r /\ assemble2 true ex2_defs ex2_ps 3 = Overlap.Ok r /\
